@@ -13,6 +13,8 @@ PINNED = [["start_a", "0", "enter"], ["start_p"] + ["9"] * 20 + ["enter"],
           ["start_p", "sp", "c", "h", "r", "h", "l", "c", "j", "g", "k", "sp", "h", "h", "h"],
           ["start_p", "k", "k", "k", "k", "k", "g", "k", "sp", "k", "k"], ["start_a", "j", "j", "j", "j", "j", "j", "sp", "r", "h", "c", "b"],
           ["start_a", "j", "j", "j", "sp", "k", "k", "g", "1", "dot", "k"],
+          # commands whose argument contains a blank: everything after the first blank is the argument
+          ["start_a", "colon", "open_p", "sp", "x", "enter", "h", "l"], ["start_p", "colon", "open_a", "sp", "sp", "enter", "k"], ["start_a", "colon", "feed_f", "sp", "x", "enter", "j"],
           # keys arriving while a background load is in flight (a document it needs is withheld), then the page walked end to end
           ["gstart_p", "j", "j", "k", "j", "resync", "g", "j", "j", "j", "k", "k", "k", "k", "k", "k"], ["gstart_p", "k", "k", "j", "k", "k", "resync", "g", "k", "k", "k", "k", "k", "j", "j", "j", "j", "j", "j"],
           # numbers far beyond any integer type, congruent to a valid link number modulo 2^64 or 2^32: they name no link
